@@ -60,6 +60,9 @@ func (sk *SpaceKeeper) OnStart() error {
 	}
 
 	sk.quit = make(chan struct{})
+	// join the wait group before the goroutine exists: OnStop must wait for it even if
+	// it has not been scheduled yet
+	sk.wg.Add(1)
 	go sk.spacePlotter()
 	go sk.fileWatcher()
 	logging.CPrint(logging.INFO, "spaceKeeper started")
